@@ -83,6 +83,7 @@ def long_lived(pytrs):
         _LONG_LIVED['tract'] = pytrs.Tract('x')
         _LONG_LIVED['cfg'] = pytrs.Config('parse_qq')
         _LONG_LIVED['cfg_layout'] = pytrs.Config('copy_all')
+        _LONG_LIVED['trs'] = pytrs.TRS('1n1w01')
     return _LONG_LIVED
 
 
@@ -124,6 +125,13 @@ def battery(pytrs):
                     bool(t.is_error()), bool(t.is_undef())])
         out.append(sorted(pytrs.trs_to_dict(s).items(), key=str))
         out.append(T('x', trs=s).trs)
+    # One long-lived TRS object, re-assigned again and again.
+    o = ll['trs']
+    for s in PROBE_TRS + ['2s3e04']:
+        o.trs = s
+        out.append([o.trs, o.twp, o.rge_num, o.sec, bool(o.is_error())])
+    out.append([o.set_twprgesec(154, 97, 14), o.trs, o.twp_num,
+                o.set_twprgesec('7s', '9e', None), o.trs, o.sec_undef])
     out.append([pytrs.TRS.from_twprgesec(154, 97, 14).trs,
                 pytrs.TRS.from_twprgesec('7', '9', 1).trs,
                 T.from_twprgesec('x', 5, 6, 7).trs,
